@@ -792,12 +792,12 @@ func init() {
 
 func runC15(ctx *WorkCtx, idx int) {
 	r := Rng(ctx.Seed, "C15", idx)
-	sc := StdScenario(idx, r, 44)
+	sc := StdScenario(idx, r, 36)
 	if sc.Spec.Orders < 3 {
 		sc.Spec.Orders = 3 + r.Intn(4)
 	}
 	if sc.Family == "crowded" || sc.Family == "filler" {
-		sc.Blocks = 28 // blocks and forks of these families are several times dearer
+		sc.Blocks = 24 // blocks and forks of these families are several times dearer
 	}
 	s, d := sc.Build("C15", ctx.Seed, idx, r, c15Mons(ctx.Res)...)
 	defer s.Finish()
